@@ -8,7 +8,7 @@ import warnings
 from dataclasses import dataclass
 from typing import Optional
 
-from autoray import do
+from autoray import do, shape
 
 from .contract import make_contractor
 from .hypergraph import get_hypergraph
@@ -3342,6 +3342,18 @@ class ContractionTree:
             chunks = {
                 k: mi * 10 ** (ei - emax) for k, (mi, ei) in chunks.items()
             }
+            # chunks that terminated early as exactly zero (``check_zero``)
+            # are plain scalars -> give them the shape of the other chunks
+            ndims = {k: len(shape(x)) for k, x in chunks.items()}
+            ndim_max = max(ndims.values())
+            if ndim_max != min(ndims.values()):
+                template = next(
+                    x for k, x in chunks.items() if ndims[k] == ndim_max
+                )
+                chunks = {
+                    k: (x if ndims[k] == ndim_max else 0.0 * template)
+                    for k, x in chunks.items()
+                }
         else:
             emax = None
 
